@@ -23,8 +23,10 @@ class RegisterFile:
 
     def __init__(
         self,
-        data=RegisterData(DefaultRegister(data="")),
+        data=None,
     ) -> None:
+        if data is None:
+            data = RegisterData(DefaultRegister(data=""))
         self.__data = data
         self.__storage = self.__class__.STORAGE
         self.__encoding = self.__class__.ENCODING
